@@ -56,7 +56,7 @@ JSONISH = st.one_of(JSONISH, st.builds(lambda a, o, inner, c, b: a + o + "".join
 def gen_wallet(tier):
     ent = st.sampled_from([16, 20, 24, 28, 32]).flatmap(lambda n: st.binary(min_size=n, max_size=n))
     return st.fixed_dictionaries({
-        "source": st.sampled_from(["mnemonic", "mnemonic", "seed", "xprv", "xprv"]),
+        "source": st.sampled_from(["mnemonic", "mnemonic", "seed", "seed-hex", "xprv", "xprv"]),
         "xver": st.sampled_from([44, 44, 49, 84]),
         "entropy": ent, "pw": st.one_of(st.just(""), S.unicode_text(8), JSONISH), "seed": S.seeds(16, 64),
         "testnet": st.booleans(),
@@ -92,6 +92,10 @@ def build(case):
     rm = R.master(case["seed"])
     if src == "seed":
         return rm, PW.from_bip39_seed_bytes(case["seed"], testnet), (None, None)
+    if src == "seed-hex":
+        # the same 16..64-byte seed written as hex text (lower / upper case)
+        text = case["seed"].hex().upper() if case["seed"][0] & 1 else case["seed"].hex()
+        return rm, (PW.from_bip39_seed_hex(text, testnet) if case["seed"][-1] & 1 else PW.from_bip39_seed_hex(bip39_seed=text, testnet=testnet)), (None, None)
     return rm, PW.from_extended_key(rm.xprv(R.VERSION_OF[("prv", testnet, case.get("xver", 44))])), (None, None)
 
 
